@@ -239,6 +239,7 @@ impl World {
         uv::rng::set_seed(Some(mix(seed, 0xe9)));
         uv::rng::clear_forced();
         uv::net::enable();
+        uv::net::set_socket_faults(0, 0);
         Self {
             now_ns: 0,
             seq: 0,
